@@ -119,6 +119,8 @@ def witness_search(prop, unit, fn, label):
     key = "%s::%s" % (fn, label)
     tried = []
     for rule in rules:
+        if "match" not in rule:
+            continue
         m = re.search(rule["match"], key)
         if not m:
             continue
